@@ -42,6 +42,15 @@ func (fr *frame) openFileModel(name string, flag int) value {
 	if env.fsFail[name] {
 		return tuple{(*value)(nil), fr.i.mkError("open " + name + ": permission denied")}
 	}
+	if env.isDir(name) {
+		if flag&(os.O_WRONLY|os.O_RDWR) != 0 {
+			return tuple{(*value)(nil), fr.i.mkError("open " + name + ": is a directory")}
+		}
+		inconclusive("reading a directory through *os.File is not modelled")
+	}
+	if !env.isDir(parentDir(name)) {
+		return tuple{(*value)(nil), fr.i.mkError("open " + name + ": no such file or directory")}
+	}
 	f := env.files[name]
 	if f == nil || !f.exists {
 		if flag&os.O_CREATE == 0 {
@@ -56,6 +65,24 @@ func (fr *frame) openFileModel(name string, flag int) value {
 	cell := new(value)
 	*cell = &native{kind: "file", obj: &openFile{path: name, append: flag&os.O_APPEND != 0}}
 	return tuple{cell, nilError()}
+}
+
+// The modelled tree: "/mem" (what vrt.TempDir names) is a directory, further
+// directories come from vrt.MkDir; every other path is a file or absent.
+// Paths outside /mem keep the older flat behaviour (any parent exists).
+func (e *envModel) isDir(name string) bool {
+	if name == "/mem" || e.dirs[name] {
+		return true
+	}
+	return !strings.HasPrefix(name, "/mem/") && (name == "" || name == "/" || name == ".")
+}
+
+func parentDir(name string) string {
+	if !strings.HasPrefix(name, "/mem/") {
+		return "/"
+	}
+	i := strings.LastIndex(name, "/")
+	return name[:i]
 }
 
 func (fr *frame) pathArg(v value) string {
@@ -122,8 +149,22 @@ func init() {
 	}
 	I["(*os.File).Sync"] = func(fr *frame, args []value) (value, bool) { return nilError(), true }
 	I["(*os.File).Name"] = func(fr *frame, args []value) (value, bool) { return fr.fileOf(args[0]).path, true }
+	I["os.Stat"] = func(fr *frame, args []value) (value, bool) {
+		name := fr.pathArg(args[0])
+		env := fr.i.env
+		f := env.files[name]
+		if env.isDir(name) || (f != nil && f.exists && env.isDir(parentDir(name))) {
+			// the FileInfo itself is not modelled: a nil interface (callers
+			// that inspect it end inconclusive through the nil method call)
+			return tuple{iface{}, nilError()}, true
+		}
+		return tuple{iface{}, fr.i.mkError("stat " + name + ": no such file or directory")}, true
+	}
 	I["os.ReadFile"] = func(fr *frame, args []value) (value, bool) {
 		name := fr.pathArg(args[0])
+		if fr.i.env.isDir(name) {
+			return tuple{[]value(nil), fr.i.mkError("read " + name + ": is a directory")}, true
+		}
 		f := fr.i.env.files[name]
 		if f == nil || !f.exists || fr.i.env.fsFail[name] {
 			return tuple{[]value(nil), fr.i.mkError("open " + name + ": no such file or directory")}, true
@@ -136,6 +177,9 @@ func init() {
 		name := fr.pathArg(args[0])
 		if fr.i.env.fsFail[name] {
 			return fr.i.mkError("open " + name + ": permission denied"), true
+		}
+		if fr.i.env.isDir(name) || !fr.i.env.isDir(parentDir(name)) {
+			return fr.i.mkError("open " + name + ": cannot create"), true
 		}
 		b := args[1].([]value)
 		cp := make([]value, len(b))
@@ -541,6 +585,21 @@ func init() {
 		name, _ := args[0].(string)
 		return "/mem/" + name, true
 	}
+	V["TempDir"] = func(fr *frame, args []value) (value, bool) { return "/mem", true }
+	V["MkDir"] = func(fr *frame, args []value) (value, bool) {
+		name, _ := args[0].(string)
+		if fr.i.env.dirs == nil {
+			fr.i.env.dirs = map[string]bool{}
+		}
+		fr.i.env.dirs[name] = true
+		return nil, true
+	}
+	// RunCLI(args...) (status, output): runs the command's main() with the
+	// argument vector, as a process would: fresh flag state, os.Exit and
+	// panics end the run and become the exit status, printed text is captured.
+	V["RunCLI"] = func(fr *frame, args []value) (value, bool) {
+		return fr.runCLI(args[0]), true
+	}
 	V["FailPath"] = func(fr *frame, args []value) (value, bool) {
 		name, _ := args[0].(string)
 		fr.i.env.fsFail[name] = true
@@ -665,6 +724,72 @@ func (fr *frame) try(f value) (out value) {
 	}()
 	in.call(fr, 0, f, nil)
 	return "ok"
+}
+
+func (fr *frame) runCLI(argv value) value {
+	in := fr.i
+	mainPkg := in.prog.ImportedPackage(in.cfg.CLIPackage)
+	if mainPkg == nil || mainPkg.Func("main") == nil {
+		inconclusive("vrt.RunCLI: command package %q not loaded", in.cfg.CLIPackage)
+	}
+	ss, ok := valueToStrSlice(argv)
+	if !ok {
+		inconclusive("vrt.RunCLI: argument vector must be concrete strings")
+	}
+	in.setOsArgs(append([]string{"gosk"}, ss...))
+	// a fresh process: the flag package's state (CommandLine, Usage) is
+	// re-initialised from os.Args, the command's own package state too
+	for _, p := range []string{"flag"} {
+		if fp := in.prog.ImportedPackage(p); fp != nil {
+			in.forceInit(fr, fp)
+		}
+	}
+	env := in.env
+	env.capture, env.cliOut = true, nil
+	code := 0
+	func() {
+		depth := in.depth
+		defer func() {
+			env.capture = false
+			if p := recover(); p != nil {
+				if _, isExit := p.(exitPanic); !isExit && engineAbort(p) {
+					if in.abortStack == "" {
+						in.abortStack = fr.stackAt()
+					}
+					panic(p)
+				}
+				in.depth = depth
+				switch p := p.(type) {
+				case exitPanic:
+					code = int(p) & 0xff
+				default:
+					// an uncaught Go panic ends the process with status 2
+					code = 2
+					env.cliOut = append(env.cliOut, "panic: "+describePanic(p))
+				}
+			}
+		}()
+		in.callSSA(fr, 0, mainPkg.Func("main"), nil, nil)
+	}()
+	var out value = ""
+	for _, piece := range env.cliOut {
+		out = concat(out, piece)
+	}
+	env.cliOut = nil
+	return tuple{code, out}
+}
+
+// forceInit runs a package's own initialiser again (its guard reset), with
+// the initialisers of its imports left as they are.
+func (in *Interp) forceInit(fr *frame, pkg *ssa.Package) {
+	if g, ok := pkg.Members["init$guard"].(*ssa.Global); ok {
+		in.store(deref(g.Type()), in.globals[g], false)
+	}
+	fi := in.info(pkg.Func("init"))
+	saved := fi.initAllowed
+	fi.initAllowed = true
+	defer func() { fi.initAllowed = saved }()
+	in.callSSA(fr, 0, pkg.Func("init"), nil, nil)
 }
 
 func (in *Interp) setOsArgs(ss []string) {
